@@ -473,7 +473,23 @@ def _getitem(run, ci, m):
     cmps = [n for n in ast.walk(m) if isinstance(n, ast.Compare) and len(n.ops) == 1 and isinstance(n.ops[0], ast.Eq)
             and {norm(n.left), norm(n.comparators[0])} & {param} and any(x.endswith('.name') for x in (norm(n.left), norm(n.comparators[0])))]
     if cmps:
-        run.ok('C15-R4', '%s.__getitem__ name' % ci.name, norm(cmps[0]))
+        # the objects whose names are compared are the members themselves (not the scenegraph children, which keep replaced members)
+        side = [x for x in (cmps[0].left, cmps[0].comparators[0]) if isinstance(x, ast.Attribute) and x.attr == 'name' and isinstance(x.value, ast.Name)]
+        src = None
+        if side:
+            v = side[0].value.id
+            for n in ast.walk(m):
+                if isinstance(n, ast.comprehension) and isinstance(n.target, ast.Name) and n.target.id == v:
+                    src = n.iter
+                elif isinstance(n, ast.For) and isinstance(n.target, ast.Name) and n.target.id == v:
+                    src = n.iter
+        if src is not None and _member_iter(src) != ('all',) and norm(src).startswith('self.'):
+            run.fail('C15-R4', _key(ci, '__getitem__', 'name-source'), *where,
+                     what='__getitem__ looks names up in %s, not in the member list: objects that are no longer (or not) members are returned' % norm(src))
+        elif src is None or _member_iter(src) != ('all',):
+            run.undecided('C15-R4', '%s.__getitem__ name' % ci.name, 'source of the objects compared by name not recognised')
+        else:
+            run.ok('C15-R4', '%s.__getitem__ name' % ci.name, norm(cmps[0]))
     else:
         run.fail('C15-R4', _key(ci, '__getitem__', 'name'), *where, what='__getitem__ does not look members up by name')
         return
@@ -493,6 +509,8 @@ _B = 'cherab/tools/observers/group/base.py'
 _S = 'cherab/tools/observers/group/spectroscopic.py'
 _F = 'cherab/tools/observers/group/fibreoptic.py'
 MUTANTS = [
+    dict(name='name-lookup-over-children', file=_B, find="observers = [observer for observer in self._observers if observer.name == item]",
+         replace="observers = [observer for observer in self.children if observer.name == item]", expect='C15-R4'),
     dict(name='camera-parent-only-with-new-slit', file='cherab/tools/observers/bolometry.py',
          find="        foil_detector.parent = self\n        self._foil_detectors.append(foil_detector)", replace="            foil_detector.parent = self\n        self._foil_detectors.append(foil_detector)", expect='C15-R4'),
     dict(name='setter-bound-to-other-name', file=_F, find="@radius.setter\n    def radius(self, value):", replace="@radius.setter\n    def acceptance_angle(self, value):", expect='C15-R1'),
